@@ -299,8 +299,11 @@ class Scenario:
                 out = "exc:" + exc_kind(e)
             rec.ev("reqret", "update", out)
 
+        in_call = [False]
+
         def do_call(op, fn):
             rec.ev("call", op, "ri" if (op == "run" and RE.record_interruptions) else "")
+            in_call[0] = True
             try:
                 r = fn()
                 oc = "ok"
@@ -309,6 +312,7 @@ class Scenario:
                 oc, nu = "interrupted", 0
             except BaseException as e:  # noqa
                 oc, nu = "exc:" + exc_kind(e), 0
+            in_call[0] = False
             rec.ev("ret", op, oc, str(RE.state), nu, int(RE.resumable), "D" if RE.deferred_pause_requested else "")
             outcomes.append((op, oc, str(RE.state)))
 
@@ -318,8 +322,29 @@ class Scenario:
         done_flag = threading.Event()
         self.hung = False
 
+        self.stalled = False
+
+        def quiescent():
+            # nothing can ever happen again: the caller is blocked inside RE(...)/resume()/..., the loop has nothing ready, no
+            # timer, no injection in flight or still to come, and has already offered its 'blocked' scheduling point
+            return (in_call[0] and not loop._ready and not loop._scheduled and not loop._inflight and loop._blocked_point_done
+                    and loop._held is None)      # (injections left for points that never come cannot fire any more)
+
         def watchdog():
-            if not done_flag.wait(sc.get("timeout", 20)):
+            # a hang is decided by the STATE of the loop (quiescent for a while), never by how long the execution takes: the
+            # machine may be arbitrarily loaded.  The hard limit only protects the harness and is reported as a machinery error.
+            import time as _t
+            t0, quiet = _t.time(), None
+            while not done_flag.wait(0.2):
+                if quiescent():
+                    quiet = quiet or _t.time()
+                    if _t.time() - quiet < float(sc.get("quiet", 1.5)):
+                        continue
+                elif _t.time() - t0 < float(sc.get("hard_timeout", 900)):
+                    quiet = None
+                    continue
+                else:
+                    self.stalled = True
                 self.hung = True
                 rec.ev("hang", str(RE.state))
                 try:
@@ -329,6 +354,7 @@ class Scenario:
                     RE._blocking_event.set()
                 except Exception:  # noqa
                     pass
+                return
 
         threading.Thread(target=watchdog, daemon=True).start()
         with contextlib.redirect_stdout(out), contextlib.redirect_stderr(out):
